@@ -32,6 +32,9 @@ CHECKS.update({
     "C12": (MC, "TLC model checking of Build.tla (every file-system mutation one action, crash before each, rustc failure, worker pool) + TLC-enumerated edit/build/crash histories executed on the real CLI (hook verif_fs_point, stand-in rustc), outcomes validated by BuildTrace against clean builds", "4 versions of one theory, 2 components; stand-in rustc", "3 C12"),
     "C13": ("exploration", "Build.tla Deterministic (design) + repeated compilations under different thread counts, directory layouts, completion orders and processes; DetTrace (TLC) requires byte-identical outputs", "quantifies over process environments that cannot be enumerated: exploration", "3 C13"),
 })
+CHECKS.update({
+    "C11": ("exploration", "Diag.tla (transcribed position arithmetic, all texts <=5 chars) model-checked by TLC + token-level / line-ending-level mutants of valid and invalid programs through the real CLI, outcomes validated by DiagTrace (TLC)", "the input space is all UTF-8 text: exploration; stderr parsed by line patterns", "3 C11"),
+})
 NOT_YET = {
 }
 NA = {
